@@ -1227,7 +1227,15 @@ class Summariser:
                 if isinstance(v, ast.Constant) and isinstance(v.value, str):
                     pieces.append(Term(repr(v.value), "str"))
                     continue
-                if not isinstance(v, ast.FormattedValue) or v.conversion != -1 or v.format_spec is not None:
+                if not isinstance(v, ast.FormattedValue) or v.conversion != -1:
+                    pieces = None
+                    break
+                if v.format_spec is not None:
+                    # f"{x:02d}" is format(x, "02d")
+                    if isinstance(v.format_spec, ast.JoinedStr) and all(isinstance(x, ast.Constant) for x in v.format_spec.values):
+                        spec = "".join(str(x.value) for x in v.format_spec.values)
+                        pieces.append(Term(f"format({self.canon(v.value, env)}, {spec!r})", "str"))
+                        continue
                     pieces = None
                     break
                 part = self.ev(v.value, dict(env))
@@ -1365,7 +1373,7 @@ class Summariser:
                 return Seq("bytes", v.parts)
         txt = self.canon(node, env)
         kind = "bytes" if any(name.endswith(x) or name == x.lstrip(".") for x in BYTES_CALLS) else None
-        if kind is None and (name.endswith(STR_CALLS) or name in ("str", "repr", "hex", "chr", "oct", "bin")):
+        if kind is None and (name.endswith(STR_CALLS) or name in ("str", "repr", "hex", "chr", "oct", "bin", "format")):
             kind = "str"
         return Term(txt, kind)
 
@@ -1426,6 +1434,8 @@ class Summariser:
                 st = (":" + self._c(n.slice.step, env)) if n.slice.step is not None else ""
                 lo = lo[1:-1] if lo.startswith("(") and lo.endswith(")") and lo.count("(") == 1 else lo
                 hi = hi[1:-1] if hi.startswith("(") and hi.endswith(")") and hi.count("(") == 1 else hi
+                if lo == "0" and not st:
+                    lo = ""  # x[0:n] is x[:n]
                 return f"{base}[{lo}:{hi}{st}]"
             idx = self._c(n.slice, env)
             idx = idx[1:-1] if idx.startswith("(") and idx.endswith(")") and idx.count("(") == 1 else idx
